@@ -429,7 +429,7 @@ async fn interp(world: Arc<World>, steps: Vec<Step>) -> Outcome {
                     if !p && before > 0 {
                         // the panic count is raised before the unwind releases the mutex; poll a little
                         let mut ok = false;
-                        for _ in 0..200 {
+                        for _ in 0..5000 {
                             tokio::time::sleep(Duration::from_millis(1)).await;
                             if w.is_mutex_poisoned() {
                                 ok = true;
